@@ -712,6 +712,34 @@ fn run_i(o: &Opts) {
     let rt = tokio::runtime::Builder::new_current_thread().enable_time().start_paused(true).build().unwrap();
     rt.block_on(async {
         let t0 = tokio::time::Instant::now();
+        // ---- fixed replay: a peer that went silent while we keep (re)transmitting once per second ---------------
+        if o.only_case.is_none() {
+            let us = |x: u64| std::time::Duration::from_micros(x);
+            for (name, max_idle, period, periods) in [("S.blackhole.3s.1s", 3_000_000u64, 1_000_000u64, 1000u64), ("S.blackhole.3s.2999ms", 3_000_000, 2_999_000, 400)] {
+                sink.case(name);
+                let cfg = ArcIdleConfig::new(us(max_idle), us(0));
+                let timer = cfg.timer();
+                let start = tokio::time::Instant::now();
+                sink.line(&format!("new {} 0", max_idle), "ok");
+                timer.on_rcvd(PacketContent::EffectivePayload);
+                sink.line("rcvd 1 0", "none");
+                let mut timed_out_at: Option<u64> = None;
+                for _ in 0..periods {
+                    tokio::time::advance(us(period)).await;
+                    let now = (tokio::time::Instant::now() - start).as_micros() as u64;
+                    timer.on_sent(PacketContent::EffectivePayload);
+                    sink.line(&format!("sent 1 {}", now), "none");
+                    let r = timer.health();
+                    let obs = match &r { Ok(None) => "none", Ok(Some(_)) => "ping", Err(_) => "timeout" };
+                    sink.line(&format!("health {}", now), obs);
+                    if r.is_err() { timed_out_at = Some(now); sink.nontrivial(); break; }
+                }
+                match timed_out_at {
+                    None => sink.monitor_fail("idle_timeout_missing:while_sending", &format!("{}: nothing received since t=0, one effective packet sent every {} us and health() polled for {} periods, max_idle {} us: never TIMEOUT", name, period, periods, max_idle)),
+                    Some(t) => if t > max_idle + 2 * period + period { sink.monitor_fail("idle_timeout_late:while_sending", &format!("{}: TIMEOUT only at {}", name, t)); },
+                }
+            }
+        }
         for case in 0..o.cases {
             if let Some(only) = o.only_case { if only != case { continue; } }
             let mut rng = Rng::new(o.seed, case);
@@ -729,24 +757,37 @@ fn run_i(o: &Opts) {
             let mut now = 0u64;
             let mut last_eff: Option<u64> = None;
             let mut last_rcvd: Option<u64> = None;
-            let n = rng.range(3, 30);
+            // RFC 9000 §10.1 bookkeeping, independent of the model: last restart, "sent since last receive", and the
+            // first poll after restart + defer (from which on max_idle of silence must end in TIMEOUT)
+            let mut restart: Option<u64> = None;
+            let mut sent_since_rcvd = false;
+            let mut idle_poll: Option<u64> = None;
+            let mut n = rng.range(3, 30);
+            let tail_from = if rng.chance(1, 3) { let k = n; n += rng.range(5, 40); k } else { u64::MAX };
+            let mut step_no = 0u64;
             for _ in 0..n {
+                step_no += 1;
+                let in_tail = step_no > tail_from; // send-only tail: sends (mostly effective) and polls, nothing received
                 // advance the clock
-                let dt = match rng.below(8) { 0 => 0, 1 => 1, 2 => rng.range(1, 1000), 3 => cur_max.max(1), 4 => cur_max + 1, 5 => defer + 1, _ => rng.range(1000, 3_000_000) };
+                let dt = if in_tail { match rng.below(4) { 0 => cur_max.saturating_sub(1).max(1), 1 => rng.range(1, cur_max.max(2)), _ => rng.range(1000, 1_500_000) } } else { match rng.below(8) { 0 => 0, 1 => 1, 2 => rng.range(1, 1000), 3 => cur_max.max(1), 4 => cur_max + 1, 5 => defer + 1, _ => rng.range(1000, 3_000_000) } };
                 tokio::time::advance(us(dt)).await;
                 now = (tokio::time::Instant::now() - start).as_micros() as u64;
-                let c = rng.below(10);
+                let c = if in_tail { if rng.chance(1, 2) { 0 } else { 9 } } else { rng.below(10) };
                 match c {
                     0 | 1 => {
-                        let eff = rng.chance(2, 3);
+                        let eff = rng.chance(2, 3) || (in_tail && rng.chance(2, 3));
                         timer.on_sent(if eff { PacketContent::EffectivePayload } else { PacketContent::JustPing });
                         if eff { last_eff = Some(now); }
+                        if eff && !sent_since_rcvd { sent_since_rcvd = true; restart = Some(now); idle_poll = None; }
+                        if in_tail { sink.branch("tail:sent"); }
                         sink.line(&format!("sent {} {}", eff as u8, now), "none");
                     }
                     2 | 3 => {
                         let eff = rng.chance(1, 2);
                         timer.on_rcvd(if eff { PacketContent::EffectivePayload } else { PacketContent::JustPing });
                         if eff { last_eff = Some(now); }
+                        sent_since_rcvd = false;
+                        if eff { restart = Some(now); idle_poll = None; } else if idle_poll.is_some() { idle_poll = Some(now); }
                         last_rcvd = Some(now);
                         sink.line(&format!("rcvd {} {}", eff as u8, now), "none");
                     }
@@ -760,6 +801,13 @@ fn run_i(o: &Opts) {
                     }
                     _ => {
                         let r = catch(|| timer.health());
+                        // liveness monitor (RFC rule): max_idle after the first poll past restart + defer, nothing received since
+                        if let (Some(p), Ok(Ok(_))) = (idle_poll, &r) {
+                            if cur_max != 0 && now > p + cur_max {
+                                sink.monitor_fail("idle_timeout_missing:while_sending", &format!("now {} idle since poll {} (restart {:?}, defer {}), max_idle {}, nothing received since, yet health() is not TIMEOUT", now, p, restart, defer, cur_max));
+                            }
+                        }
+                        if let (Some(r0), None) = (restart, idle_poll) { if now > r0 + defer { idle_poll = Some(now); } }
                         let obs = match r {
                             Err(m) => { sink.monitor_fail("panic:health", &m); "PANIC" }
                             Ok(Ok(None)) => "none",
@@ -768,11 +816,12 @@ fn run_i(o: &Opts) {
                                 sink.nontrivial();
                                 // monitors
                                 if cur_max == 0 { sink.monitor_fail("timeout_while_disabled", &format!("now {}", now)); }
-                                match last_eff {
+                                let _ = last_eff;
+                                match restart {
                                     None => sink.monitor_fail("timeout_without_traffic", ""),
-                                    Some(c0) => if now - c0 <= cur_max + defer { sink.monitor_fail("timeout_too_early:effective", &format!("now {} last effective {} max_idle {} defer {}", now, c0, cur_max, defer)); }
+                                    Some(c0) => if now - c0 <= cur_max + defer { sink.monitor_fail("timeout_too_early:effective", &format!("now {} last restart (effective receive / first effective send since a receive) {} max_idle {} defer {}", now, c0, cur_max, defer)); }
                                 }
-                                if let Some(x) = last_rcvd { if Some(x) >= last_eff && now - x <= cur_max { sink.monitor_fail("timeout_too_early:received", &format!("now {} last received {} max_idle {}", now, x, cur_max)); } }
+                                if let Some(x) = last_rcvd { if now - x <= cur_max { sink.monitor_fail("timeout_too_early:received", &format!("now {} last received {} max_idle {}", now, x, cur_max)); } }
                                 "timeout"
                             }
                         };
